@@ -162,6 +162,18 @@ func (changes *Changes) GetDSC() (*DSC, error) {
 	return nil, fmt.Errorf("No .dsc file in .changes")
 }
 
+// Make sure that every file listed in the control file is a plain file
+// name, so that Copy, Move and Remove never leave the control file's own
+// directory.
+func (changes *Changes) checkFileNames() error {
+	for _, file := range changes.Files {
+		if err := internal.CheckPlainName(file.Filename); err != nil {
+			return err
+		}
+	}
+	return nil
+}
+
 // Copy the .changes file and all referenced files to the directory
 // listed by the dest argument. This function will error out if the dest
 // argument is not a directory, or if there is an IO operation in transfer.
@@ -172,6 +184,9 @@ func (changes *Changes) GetDSC() (*DSC, error) {
 func (changes *Changes) Copy(dest string) error {
 	if file, err := os.Stat(dest); err == nil && !file.IsDir() {
 		return fmt.Errorf("Attempting to move .changes to a non-directory")
+	}
+	if err := changes.checkFileNames(); err != nil {
+		return err
 	}
 
 	for _, file := range changes.AbsFiles() {
@@ -199,6 +214,9 @@ func (changes *Changes) Move(dest string) error {
 	if file, err := os.Stat(dest); err == nil && !file.IsDir() {
 		return fmt.Errorf("Attempting to move .changes to a non-directory")
 	}
+	if err := changes.checkFileNames(); err != nil {
+		return err
+	}
 
 	for _, file := range changes.AbsFiles() {
 		dirname := filepath.Base(file.Filename)
@@ -218,6 +236,9 @@ func (changes *Changes) Move(dest string) error {
 // always remove the .changes last, in the event there are filesystem i/o errors
 // on removing associated files.
 func (changes *Changes) Remove() error {
+	if err := changes.checkFileNames(); err != nil {
+		return err
+	}
 	for _, file := range changes.AbsFiles() {
 		err := os.Remove(file.Filename)
 		if err != nil {
